@@ -25,3 +25,46 @@ pub fn from_limbs_slice_any<const BITS: usize, const LIMBS: usize>(slice: &[u64]
 pub fn format_stub(_args: core::fmt::Arguments<'_>) -> String {
     String::new()
 }
+
+// ---- tagged mixing stubs for inherent methods (facade / glue harnesses):
+// cheap, deterministic, argument-order sensitive and distinct per method, so
+// "facade(args) == inherent(args)" can only hold by actual forwarding.
+
+#[inline(always)]
+fn mix<const BITS: usize, const LIMBS: usize>(a: &Uint<BITS, LIMBS>, b: &Uint<BITS, LIMBS>, tag: u64) -> Uint<BITS, LIMBS> {
+    let mut l = [0u64; LIMBS];
+    let mut i = 0;
+    while i < LIMBS {
+        l[i] = a.as_limbs()[i].rotate_left(7).wrapping_add(tag) ^ b.as_limbs()[i].rotate_left(29);
+        i += 1;
+    }
+    if LIMBS > 0 {
+        l[LIMBS - 1] &= ruint::mask(BITS);
+    }
+    Uint::from_limbs(l)
+}
+
+#[inline(always)]
+fn flag<const BITS: usize, const LIMBS: usize>(a: &Uint<BITS, LIMBS>, b: &Uint<BITS, LIMBS>, tag: u64) -> bool {
+    if LIMBS == 0 {
+        false
+    } else {
+        (a.as_limbs()[0] ^ b.as_limbs()[0].rotate_left(3) ^ tag) & 4 != 0
+    }
+}
+
+pub fn wrapping_mul_mix<const BITS: usize, const LIMBS: usize>(a: Uint<BITS, LIMBS>, b: Uint<BITS, LIMBS>) -> Uint<BITS, LIMBS> {
+    mix(&a, &b, 0x1111)
+}
+pub fn overflowing_mul_mix<const BITS: usize, const LIMBS: usize>(a: Uint<BITS, LIMBS>, b: Uint<BITS, LIMBS>) -> (Uint<BITS, LIMBS>, bool) {
+    (mix(&a, &b, 0x2222), flag(&a, &b, 0x2222))
+}
+pub fn wrapping_div_mix<const BITS: usize, const LIMBS: usize>(a: Uint<BITS, LIMBS>, b: Uint<BITS, LIMBS>) -> Uint<BITS, LIMBS> {
+    mix(&a, &b, 0x3333)
+}
+pub fn wrapping_rem_mix<const BITS: usize, const LIMBS: usize>(a: Uint<BITS, LIMBS>, b: Uint<BITS, LIMBS>) -> Uint<BITS, LIMBS> {
+    mix(&a, &b, 0x4444)
+}
+pub fn div_rem_mix<const BITS: usize, const LIMBS: usize>(a: Uint<BITS, LIMBS>, b: Uint<BITS, LIMBS>) -> (Uint<BITS, LIMBS>, Uint<BITS, LIMBS>) {
+    (mix(&a, &b, 0x5555), mix(&b, &a, 0x6666))
+}
